@@ -62,6 +62,23 @@ def run(rep, tier, seed, replay=None):
                         jobs.append((dict(ed=5, tmpl=tmpl, subsets=subs, same=True, no_model=True), comp))
                     except gen.Reject:
                         pass
+    # foreign compressed messages whose character columns are written with fewer octets per subset than the element width
+    # (NBINC < width/8, as encoders that trim trailing blanks do; this library never writes that).  Outside the Coq model
+    # (Fm94.dec_strcol accepts only NBINC = width): the oracle is the property itself on the library - range == slice.
+    foreign = []
+    if not replay:
+        for _ in range(12 if tier == "quick" else 120):
+            n = rng.choice([3, 4, 5, 7])
+            k = rng.choice([1, 3, 6, 19])
+            bits = ""
+            def num(w, v):            # a numeric column stored once: R0 = v, NBINC = 0
+                return format(v, "0%db" % w) + "000000"
+            bits += num(7, rng.randrange(100))                                   # 0 01 001, 7 bits
+            bits += "0" * 160 + format(k, "06b") + "".join(format(rng.choice(b"ABCXYZ019 "), "08b") for _ in range(n * k))   # 0 01 015, 20 octets, NBINC = k
+            bits += num(10, rng.randrange(1000))                                 # 0 01 002, 10 bits
+            bits += "0" * ((8 - len(bits) % 8) % 8)
+            s4 = bytes(int(bits[i:i + 8], 2) for i in range(0, len(bits), 8))
+            foreign.append(bufrmsg.build(4, [1001, 1015, 1002], n, True, s4).hex())
     el = [gen.case_line(c["ed"], comp, c["tmpl"], c["subsets"]) for c, comp in jobs]
     eo = ctx.run_c(el)
     codecrun.crash_violation(rep, "C14", ctx, el, eo, "encoding")
@@ -75,6 +92,13 @@ def run(rep, tier, seed, replay=None):
         for a in range(1, n + 1):
             for b in range(a, n + 1):
                 dl.append("D %s %d %d" % (h["msg"], a, b)); meta.append((c, comp, h["msg"], (a, b), line))
+    for fm in foreign:
+        p_ = bufrmsg.parse(bytes.fromhex(fm))
+        fc = dict(ed=4, tmpl=[1001, 1015, 1002], subsets=[[({"desc": 1001}, {})]] * p_["nsub"], same=True, no_model=True, foreign=True)
+        dl.append("D %s" % fm); meta.append((fc, 1, fm, None, "foreign " + fm))
+        for a in range(1, p_["nsub"] + 1):
+            for b in range(a, p_["nsub"] + 1):
+                dl.append("D %s %d %d" % (fm, a, b)); meta.append((fc, 1, fm, (a, b), "foreign " + fm))
     do = ctx.run_c(dl)
     if len(do) < len(dl):
         rep.violation("C14: the library crashed decoding a subset range: %s  [%s]" % (dl[len(do)][:200], ctx.sanitizer_summary()),
@@ -90,7 +114,9 @@ def run(rep, tier, seed, replay=None):
         rep.count((msg[:80], len(msg), a, b))
         fl = fixed_length(c)
         feat[("compressed" if comp else ("plain_fixed" if fl else "plain_delayed"))] += 1
-        if c.get("no_model"):
+        if c.get("foreign"):
+            feat["foreign_short_string_increments"] += 1
+        elif c.get("no_model"):
             feat["ieee_209_columns"] += 1
         if a == b:
             feat["single_subset"] += 1
